@@ -398,8 +398,13 @@ StageClausesW(s, e, t, connS, connT) ==
     Cl("C09_Staged", {"C09"}, isRestoreS /\ Ok(e),
         isRestoreS /\ Ok(e) =>
             LET H == HeadSnap(S)
-                R == UNION {SelStaged(s, a) : a \in ArgSet(e)} IN
-            /\ \A p \in R : PairsFor(IdxPairs(T.idx), p) = PairsFor(H, p)
+                R == UNION {SelStaged(s, a) : a \in ArgSet(e)}
+                (* an argument that HEAD or the staging area knows both as a file and as a directory (a snapshot can *)
+                (* hold `src` and `src/a`, see WtConflict) can be read either way: each selected path then has its   *)
+                (* HEAD entry or keeps its staged one                                                                 *)
+                df == \E a \in ArgSet(e) : a \in KnownS(s) /\ \E q \in KnownS(s) : Under(a, q) IN
+            /\ \A p \in R : \/ PairsFor(IdxPairs(T.idx), p) = PairsFor(H, p)
+                             \/ (df /\ PairsFor(IdxPairs(T.idx), p) = PairsFor(IdxPairs(S.idx), p))
             /\ \A p \in (IdxPaths(S.idx) \cup IdxPaths(T.idx)) \ R : PairsFor(IdxPairs(T.idx), p) = PairsFor(IdxPairs(S.idx), p)
             /\ T.wt = S.wt),
     Cl("C09_StagedFound", {"C09"}, isRestoreS /\ Len(e.paths) > 0 /\ StagedDisjoint(s, e.paths) /\ \A a \in ArgSet(e) : SelStaged(s, a) # {},
